@@ -244,19 +244,23 @@ fn has_ancestor(d: &ProcDump, t: &TaskDump, anc: &str) -> bool {
 /// C03: hierarchical completion and exactly one terminal event
 pub fn completion(e: &Exec, ops: &[OpRec]) -> V {
     let mut v = vec![];
-    // (i) a container reported completed has no open task beneath it
+    // (i) a container reported completed has no open task beneath it. Judged at the end of the
+    // activity that made the report (an action may report a container before it closes the
+    // children in the same call; what must not happen is that they are left open).
     for (i, t) in e.trace.iter().enumerate() {
         if let Tr::TaskEvent {
-            pid,
-            tid,
-            nid,
-            kind,
-            state,
-            dump: Some(d),
-            ..
+            pid, tid, nid, kind, state, ..
         } = t
         {
             if state != "completed" {
+                continue;
+            }
+            let d = match e.points.iter().find(|q| q.at > i).and_then(|q| q.views.get(pid)).and_then(|x| x.as_ref()) {
+                Some(d) => d,
+                None => continue,
+            };
+            // the container may have been reopened / redone meanwhile: judge only if it is still completed
+            if d.tasks.iter().find(|x| x.tid == *tid).map(|x| x.state != "completed").unwrap_or(true) {
                 continue;
             }
             let open: Vec<String> = d
@@ -269,7 +273,7 @@ pub fn completion(e: &Exec, ops: &[OpRec]) -> V {
                 push(
                     &mut v,
                     format!("completed-over-open/{kind}/{}", action_of(ops, i)),
-                    format!("{kind} {nid} ({pid}:{tid}) is reported completed while tasks beneath it are open: {open:?}"),
+                    format!("{kind} {nid} ({pid}:{tid}) is reported completed while tasks beneath it are left open: {open:?}"),
                 );
             }
         }
@@ -338,11 +342,8 @@ pub fn completion(e: &Exec, ops: &[OpRec]) -> V {
             match t {
                 Tr::Emit { channel: "complete", msg } if msg.pid == *pid && term_at.is_none() => {
                     term_at = Some((i, format!("{:?}", msg.state).to_lowercase()));
-                    // the process dump taken at the process event just before
-                    let d = e.trace[..i].iter().rev().find_map(|x| match x {
-                        Tr::ProcEvent { pid: p, dump: Some(d), .. } if p == pid => Some(d),
-                        _ => None,
-                    });
+                    // the structural dump at the end of the activity that delivered the event
+                    let d = e.points.iter().find(|q| q.at > i).and_then(|q| q.views.get(pid)).and_then(|x| x.as_ref());
                     if let Some(d) = d {
                         let open: Vec<String> = d
                             .tasks
@@ -355,7 +356,7 @@ pub fn completion(e: &Exec, ops: &[OpRec]) -> V {
                                 &mut v,
                                 format!("open-after-terminal/{}/{}", term_at.as_ref().unwrap().1, action_of(ops, i)),
                                 format!(
-                                    "process {pid} delivered its terminal event ({}) while tasks are still open: {open:?}",
+                                    "process {pid} delivered its terminal event ({}) and tasks are left open: {open:?}",
                                     term_at.as_ref().unwrap().1
                                 ),
                             );
